@@ -259,7 +259,6 @@ func negAtom(a atom) atom {
 	return atom{Form: a.Form.scale(-1).add(linConst(1), 1)}
 }
 
-
 // pathPhi returns a phi resolver for a concrete path (edge taken = predecessor on the path).
 func pathPhi(path cfgPath) func(*ssa.Phi) ssa.Value {
 	prev := map[*ssa.BasicBlock]*ssa.BasicBlock{}
